@@ -1584,6 +1584,8 @@ SoPlexBase<R>& SoPlexBase<R>::operator=(const SoPlexBase<R>& rhs)
       _hasSolRational = rhs._hasSolRational;
       _hasBasis = rhs._hasBasis;
       _applyPolishing = rhs._applyPolishing;
+      _optimizeCalls = rhs._optimizeCalls;
+      _unscaleCalls = rhs._unscaleCalls;
 
       // rational constants do not need to be assigned
 #ifdef SOPLEX_WITH_BOOST
